@@ -23,7 +23,8 @@ def main():
             continue
         meta = json.load(open(meta_path))
         prop = meta["breaks_property"]
-        r = subprocess.run([os.path.join(VERIF, "tools", "eval_mutant.py"), d, prop], capture_output=True, text=True)
+        others = sorted(meta.get("other_checks", {}))
+        r = subprocess.run([os.path.join(VERIF, "tools", "eval_mutant.py"), d, prop] + others, capture_output=True, text=True)
         try:
             res = json.loads(r.stdout.strip().splitlines()[-1])
         except Exception:  # noqa: BLE001
@@ -44,7 +45,13 @@ def main():
         }
         meta["confirmed"]["repo_tests_with_patch"] = res.get("tests_tail")
         json.dump(meta, open(meta_path, "w"), indent=1)
-        ok = res.get("detected") and res.get("tests_pass_with_patch") and res.get("demo_fails_with_patch") and res.get("demo_passes_clean")
+        by_other = False
+        for o in others:
+            v = res.get(f"check_{o}", {})
+            meta["other_checks"][o] = {"detected": v.get("exit") == 1, "oracles": v.get("oracles")}
+            by_other = by_other or v.get("exit") == 1
+        json.dump(meta, open(meta_path, "w"), indent=1)
+        ok = (res.get("detected") or by_other) and res.get("tests_pass_with_patch") and res.get("demo_fails_with_patch") and res.get("demo_passes_clean")
         print(name, "OK" if ok else "MISSED/UNCONFIRMED", meta["check"]["oracles"], meta["check"]["wall_s"], flush=True)
         if not ok:
             missed.append(name)
